@@ -179,6 +179,13 @@ func execJob(b *batch, j job) (r result) {
 		if j.Check && r.ok() {
 			r.Invalid, r.InvalidMsg = validity(e, d, recv, b.Tripwire)
 		}
+		if r.Alloc > 4<<20 {
+			// leave no garbage behind a job that allocated megabytes: whether a later allocation fits under the
+			// helper's address-space limit must not depend on when the collector last ran
+			recv = nil
+			runtime.GC()
+			debug.FreeOSMemory()
+		}
 	default:
 		panic("c08: unknown job op " + j.Op)
 	}
